@@ -744,22 +744,39 @@ Proof.
   apply N.eqb_eq in H1. apply N.leb_le in H2. apply N.leb_le in H3. auto.
 Qed.
 
-Lemma nodup_b_sound l : nodup_b l = true -> NoDup l.
+Lemma nodup_b_sound : forall l seen, nodup_b l seen = true -> (forall a, In a l -> a <> 0%N) ->
+  NoDup l /\ forall a, In a l -> marked seen a = false.
 Proof.
-  induction l as [|a l IH]; simpl; intros H; constructor.
-  - apply andb_true_iff in H. destruct H as [H _]. rewrite negb_true_iff in H.
-    intros Hin. assert (existsb (N.eqb a) l = true); [|congruence].
-    apply existsb_exists. exists a. split; [exact Hin|apply N.eqb_refl].
-  - apply IH. apply andb_true_iff in H. tauto.
+  induction l as [|a l IH]; simpl; intros seen H Hnz.
+  - split; [constructor|intros a []].
+  - apply andb_true_iff in H. destruct H as [H1 H2]. rewrite negb_true_iff in H1.
+    destruct (IH (setmark a seen) H2 (fun x Hx => Hnz x (or_intror Hx))) as [Hnd Hun].
+    assert (Ha : a <> 0%N) by (apply Hnz; auto).
+    split.
+    + constructor; [|exact Hnd]. intros Hin. specialize (Hun a Hin).
+      rewrite marked_setmark_same in Hun by assumption. discriminate.
+    + intros x [<-|Hx]; [exact H1|].
+      specialize (Hun x Hx). destruct (marked seen x) eqn:E; [|reflexivity].
+      rewrite (marked_setmark_mono _ _ a E) in Hun. discriminate.
+Qed.
+
+Lemma marked_fold_setmark l w : marked (fold_right setmark nempty l) w = true -> In w l.
+Proof.
+  induction l as [|a l IH]; simpl; intros H.
+  - rewrite marked_nempty in H. discriminate.
+  - destruct (N.eq_dec w a) as [->|Hne]; [auto|].
+    rewrite marked_setmark_other in H by assumption. auto.
 Qed.
 
 Lemma order_b_sound rg order : order_b rg order = true -> order_ok rg order.
 Proof.
   unfold order_b, order_ok. rewrite !andb_true_iff, !forallb_forall. intros [[H1 H2] H3].
-  split; [apply nodup_b_sound; exact H1|]. intros p. split; [apply H2|].
-  intros Hp. unfold registered in Hp. destruct (nget p rg) as [r|] eqn:E; [|discriminate].
-  destruct (nget_elements _ _ _ E) as (k & -> & Hin). specialize (H3 _ Hin). cbn [fst snd] in H3.
-  apply existsb_exists in H3. destruct H3 as (x & Hx & Hxe). apply N.eqb_eq in Hxe. subst. exact Hx.
+  split.
+  - apply (nodup_b_sound order nempty H2). intros a Ha. eapply registered_nonzero. apply H1. exact Ha.
+  - intros p. split; [apply H1|].
+    intros Hp. unfold registered in Hp. destruct (nget p rg) as [r|] eqn:E; [|discriminate].
+    destruct (nget_elements _ _ _ E) as (k & -> & Hin). specialize (H3 _ Hin). cbn [fst snd] in H3.
+    apply marked_fold_setmark. exact H3.
 Qed.
 
 (* ------------------------------------------------------------------ non-vacuity: a 7-object heap
@@ -863,8 +880,8 @@ Proof.
     + destruct (Hr q Hq) as (A & B & C). split; [assumption|].
       split; [etransitivity; [apply N.le_min_r|exact B]|etransitivity; [exact C|apply N.le_max_r]].
   - cbn [alloc_state st_reg st_order]. split.
-    + apply NoDup_snoc; [assumption|]. intros Hp. apply Hin in Hp. congruence.
-    + intros q. rewrite in_app_iff, registered_nset by assumption. rewrite Hin. simpl. intuition congruence.
+    + constructor; [|assumption]. intros Hp. apply Hin in Hp. congruence.
+    + intros q. rewrite registered_nset by assumption. rewrite <- Hin. simpl. intuition congruence.
 Qed.
 
 Lemma inv_after_dels s fin s' :
@@ -906,7 +923,7 @@ Section Threshold.
     exists s' fin, step true true s e = Ok (s', fin) /\ collection_safe s1 extra fin s' /\ inv s'.
   Proof.
     intros Hcp Hinv Hok. destruct e as [p c root| | | |]; cbn [collection_point] in Hcp; try discriminate.
-    - cbn [step]. destruct (st_mitems s <? length (st_order (alloc_state s p c root))); [|discriminate].
+    - cbn [step]. destruct (st_mitems s <? st_nitems (alloc_state s p c root))%N; [|discriminate].
       inversion Hcp; subst. apply do_collect_safe; assumption.
     - inversion Hcp; subst. cbn [step]. apply do_collect_safe; assumption.
   Qed.
@@ -917,7 +934,7 @@ Section Threshold.
   Proof.
     intros Hinv Hev Hstep Hok. destruct e as [p c root|p c|tls stack|p|].
     - cbn [step] in Hstep. pose proof (inv_alloc s p c root Hinv Hev) as Hinv1.
-      destruct (st_mitems s <? length (st_order (alloc_state s p c root))) eqn:E.
+      destruct (st_mitems s <? st_nitems (alloc_state s p c root))%N eqn:E.
       + destruct (do_collect_safe (alloc_state s p c root) [p] Hinv1) as (s2 & fin2 & H2 & _ & I2).
         * apply (Hok _ [p]). cbn [collection_point]. rewrite E. reflexivity.
         * rewrite H2 in Hstep. inversion Hstep; subst. exact I2.
@@ -959,7 +976,7 @@ Section Threshold.
     destruct (collection_point s e) as [[s1 extra]|] eqn:Hcp.
     - assert (Hinv1 : inv s1).
       { destruct e as [p c root| | | |]; cbn [collection_point] in Hcp; try discriminate.
-        - destruct (st_mitems s <? length (st_order (alloc_state s p c root))); [|discriminate].
+        - destruct (st_mitems s <? st_nitems (alloc_state s p c root))%N; [|discriminate].
           inversion Hcp; subst. apply inv_alloc; assumption.
         - inversion Hcp; subst. exact Hinv. }
       destruct (threshold_collect_safe_lemma s e s1 extra Hcp Hinv1 (Hok _ _ eq_refl)) as (s' & fin & Hs & Hsafe & Hinv').
@@ -967,7 +984,7 @@ Section Threshold.
       intros s1' extra' E. inversion E; subst. exact Hsafe.
     - assert (Hs : exists s' fin, step true true s e = Ok (s', fin)).
       { destruct e as [p c root|p c|tls stack|p|]; cbn [collection_point] in Hcp; cbn [step].
-        - destruct (st_mitems s <? length (st_order (alloc_state s p c root))); [discriminate|eauto].
+        - destruct (st_mitems s <? st_nitems (alloc_state s p c root))%N; [discriminate|eauto].
         - eauto.
         - eauto.
         - destruct (registered (st_reg s) p); eauto.
@@ -1169,7 +1186,7 @@ Qed.
    to w56 at address 64) crosses the threshold, so the collection runs inside alloc *)
 Definition w64 : word := 64%N.
 Definition ex_state : state :=
-  {| st_heap := ex_heap; st_reg := ex_reg; st_order := ex_order; st_mitems := 6;
+  {| st_heap := ex_heap; st_reg := ex_reg; st_order := ex_order; st_nitems := 6%N; st_mitems := 6%N;
      st_minptr := w8; st_maxptr := w56; st_tls := ex_tls; st_stack := ex_stack |}.
 Definition ex_event : event := EAlloc w64 (mk_contents KRef [w56]) false.
 Definition ex_state1 : state := alloc_state ex_state w64 (mk_contents KRef [w56]) false.
